@@ -59,7 +59,13 @@ func genKeyExpr(t *rapid.T, f *shardfix.Fixture, placed, unplaced []shardfix.Key
 		}
 		return "3"
 	}
-	switch c := shardfix.Uniform(t, name+"_cat", 100); {
+	c := shardfix.Uniform(t, name+"_cat", 100)
+	if c >= 84 {
+		c = 62 + (c-84)*38/16 // the unroutable kinds share 16 %: most multi-row statements stay routable
+	} else {
+		c = 0
+	}
+	switch {
 	case c < 62 || len(placed) == 0:
 		if len(placed) == 0 {
 			return "1"
@@ -112,6 +118,8 @@ func genOther(t *rapid.T, col, name string) string {
 		return rapid.SampledFrom([]string{"'x'", "'hi'", "''", "NULL", "'it''s'", "'a,b'"}).Draw(t, name)
 	case "id":
 		return rapid.SampledFrom([]string{"10", "11", "NULL", "nextval()", "12"}).Draw(t, name)
+	case "cid":
+		return rapid.SampledFrom([]string{"100", "101", "NULL"}).Draw(t, name)
 	}
 	return "0"
 }
@@ -155,7 +163,13 @@ func genCase(t *rapid.T) c03Case {
 			unplaced = append(unplaced, k)
 		}
 	}
-	name := shardfix.Table
+	// target: the sharded table t, or its linked table tc (routed by tc's own
+	// sharding column, whatever other columns the statement carries)
+	target, keyCol := shardfix.Table, shardfix.Key
+	if l.ChildKey != "" && shardfix.Uniform(t, "into_child", 4) == 0 {
+		target, keyCol = shardfix.Child, l.ChildKey
+	}
+	name := target
 	if qual {
 		name = shardfix.DB + "." + name
 	}
@@ -165,24 +179,32 @@ func genCase(t *rapid.T) c03Case {
 		}
 		switch rapid.IntRange(0, 7).Draw(t, "colq_"+col) {
 		case 0:
-			return "t." + col
+			return target + "." + col
 		case 1:
-			return "db.t." + col
+			return "db." + target + "." + col
 		}
 		return col
 	}
 	// columns: the key (almost always) and a subset of the others, in any order
 	cols := []string{}
 	if rapid.IntRange(0, 19).Draw(t, "omit_key") != 0 {
-		cols = append(cols, "k")
+		cols = append(cols, keyCol)
 	}
-	for _, oc := range []string{"a", "s", "id"} {
+	others := []string{"a", "s", "id"}
+	if target == shardfix.Child {
+		others = []string{"a", "cid"}
+		if keyCol != shardfix.Key && shardfix.Uniform(t, "parent_named_col", 5) != 0 {
+			// a plain column of tc that is named like the parent's sharding column
+			cols = append(cols, shardfix.Key)
+		}
+	}
+	for _, oc := range others {
 		if rapid.IntRange(0, 2).Draw(t, "use_"+oc) != 0 {
 			cols = append(cols, oc)
 		}
 	}
 	if len(cols) == 0 {
-		cols = []string{"k"}
+		cols = []string{keyCol}
 	}
 	cols = rapid.Permutation(cols).Draw(t, "col_order")
 	dup := ""
@@ -192,21 +214,30 @@ func genCase(t *rapid.T) c03Case {
 	case 1:
 		dup = " ON DUPLICATE KEY UPDATE a = a + 1, s = VALUES(s)"
 	case 2:
-		dup = " ON DUPLICATE KEY UPDATE t.a = 1"
+		dup = " ON DUPLICATE KEY UPDATE " + target + ".a = 1"
 		if c.DB == "" {
 			dup = " ON DUPLICATE KEY UPDATE a = 1"
 		}
 	case 3:
 		if rapid.IntRange(0, 2).Draw(t, "dup_key") == 0 {
-			dup = " ON DUPLICATE KEY UPDATE k = 3"
+			dup = " ON DUPLICATE KEY UPDATE " + keyCol + " = 3"
 		}
+	}
+	if target == shardfix.Child && strings.Contains(dup, "s = VALUES(s)") {
+		dup = " ON DUPLICATE KEY UPDATE a = a + 1"
 	}
 	if strings.HasPrefix(verb, "REPLACE") {
 		dup = ""
 	}
 	value := func(col, nm string) string {
-		if col == "k" {
+		switch {
+		case col == keyCol:
 			return genKeyExpr(t, f, placed, unplaced, nm)
+		case col == shardfix.Key:
+			// tc's column named like the parent's key: any literal of that type, drawn
+			// independently of the row's own sharding value
+			k := rapid.SampledFrom(placed).Draw(t, nm+"_parentcol")
+			return k.Lit
 		}
 		return genOther(t, col, nm)
 	}
@@ -319,8 +350,8 @@ func rowKey(cols []string, r row) string {
 
 // pointRoute asks a separate plan where "k = lit" is looked up: exactly one
 // configured table, or ok=false.
-func pointRoute(f *shardfix.Fixture, lit string) (int, bool) {
-	p, err, pan, _ := f.Plan(shardfix.DB, "SELECT * FROM t WHERE k = "+lit)
+func pointRoute(f *shardfix.Fixture, table, keyCol, lit string) (int, bool) {
+	p, err, pan, _ := f.Plan(shardfix.DB, "SELECT * FROM "+table+" WHERE "+keyCol+" = "+lit)
 	if err != nil || pan != "" {
 		return 0, false
 	}
@@ -369,10 +400,10 @@ func isIntText(s string) bool {
 }
 
 // physicalIndex extracts the table index a recorded statement addresses.
-func physicalIndex(f *shardfix.Fixture, st shardfix.Stmt, in *insertInfo) (int, string) {
+func physicalIndex(f *shardfix.Fixture, st shardfix.Stmt, in *insertInfo, target string) (int, string) {
 	l := f.Layout
 	if l.IsMycat() {
-		if in.table != shardfix.Table {
+		if in.table != target {
 			return 0, fmt.Sprintf("statement for %s/%s writes table %s", st.Slice, st.DB, in.table)
 		}
 		if in.schema != "" && in.schema != st.DB {
@@ -389,14 +420,18 @@ func physicalIndex(f *shardfix.Fixture, st shardfix.Stmt, in *insertInfo) (int, 
 		return 0, fmt.Sprintf("no table of the rule lives in %s/%s", st.Slice, st.DB)
 	}
 	for _, tl := range f.Tables {
-		if tl.Name == in.table {
+		phys := tl.Name
+		if target == shardfix.Child {
+			phys = tl.Child
+		}
+		if phys == in.table {
 			if tl.Slice != st.Slice || tl.DB != st.DB {
-				return 0, fmt.Sprintf("table %s lives on %s/%s but its statement was sent to %s/%s", tl.Name, tl.Slice, tl.DB, st.Slice, st.DB)
+				return 0, fmt.Sprintf("table %s lives on %s/%s but its statement was sent to %s/%s", phys, tl.Slice, tl.DB, st.Slice, st.DB)
 			}
 			return tl.Index, ""
 		}
 	}
-	return 0, fmt.Sprintf("statement for %s/%s writes %q, not a physical table of t", st.Slice, st.DB, in.table)
+	return 0, fmt.Sprintf("statement for %s/%s writes %q, not a physical table of %s", st.Slice, st.DB, in.table, target)
 }
 
 // ---------------------------------------------------------------- the property
@@ -423,8 +458,25 @@ func checkCase(c c03Case) (o pbt.Outcome) {
 		return
 	}
 	g, isGlobal := f.Global(in.table)
-	if !isGlobal && (l.Kind == "" || in.table != shardfix.Table) {
-		o.Skip = "not a sharded or global table"
+	target, keyCol, seqColName := in.table, shardfix.Key, l.SeqCol
+	switch {
+	case isGlobal:
+	case l.Kind != "" && in.table == shardfix.Table:
+	case l.Kind != "" && in.table == shardfix.Child && l.ChildKey != "":
+		keyCol, seqColName = l.ChildKey, "" // the sequence belongs to t
+		o.Labels = append(o.Labels, "into_linked_table")
+		if _, has := func() (int, bool) {
+			for i, cn := range in.cols {
+				if cn == shardfix.Key && keyCol != shardfix.Key {
+					return i, true
+				}
+			}
+			return 0, false
+		}(); has {
+			o.Labels = append(o.Labels, "linked_with_parent_named_column")
+		}
+	default:
+		o.Skip = "not a sharded, linked or global table"
 		return
 	}
 	if isGlobal {
@@ -451,20 +503,20 @@ func checkCase(c c03Case) (o pbt.Outcome) {
 	// Gaea looks the sequence up by the session database only; with another (or no)
 	// session database the table has no sequence and nextval() is an ordinary,
 	// unevaluated function call
-	seqOnKey := l.SeqCol == shardfix.Key && c.DB == shardfix.DB
-	if l.SeqCol != "" && c.DB != shardfix.DB {
+	seqOnKey := seqColName != "" && seqColName == keyCol && c.DB == shardfix.DB
+	if seqColName != "" && c.DB != shardfix.DB {
 		o.Labels = append(o.Labels, "observed_sequence_ignored_without_session_db")
 	}
 	if !isGlobal {
 		hasKeyCol := false
 		for _, cn := range in.cols {
-			if cn == shardfix.Key {
+			if cn == keyCol {
 				hasKeyCol = true
 			}
 		}
 		for _, r := range in.rows {
 			rc := rowClass{}
-			node, has := r.nodes[shardfix.Key]
+			node, has := r.nodes[keyCol]
 			switch {
 			case !has:
 				if seqOnKey && !in.setForm {
@@ -482,17 +534,17 @@ func checkCase(c c03Case) (o pbt.Outcome) {
 				case lit && null:
 					rc.why = "NULL sharding value"
 				case lit:
-					if idx, ok := pointRoute(f, r.vals[shardfix.Key]); ok {
+					if idx, ok := pointRoute(f, target, keyCol, r.vals[keyCol]); ok {
 						rc.routable, rc.want = true, idx
 					} else {
-						rc.why = "point query k = " + r.vals[shardfix.Key] + " is refused or finds no table"
+						rc.why = "point query " + keyCol + " = " + r.vals[keyCol] + " is refused or finds no table"
 					}
 				default:
 					rc.nonLit = true
 					if nTables == 1 {
 						rc.routable, rc.want = true, f.Tables[0].Index // a single table: every row belongs there
 					} else {
-						rc.why = fmt.Sprintf("sharding value %s is not a literal (%T)", r.vals[shardfix.Key], node)
+						rc.why = fmt.Sprintf("sharding value %s is not a literal (%T)", r.vals[keyCol], node)
 					}
 				}
 			}
@@ -612,7 +664,7 @@ func checkCase(c c03Case) (o pbt.Outcome) {
 				for _, cp := range g2.Copies() {
 					want2[loc{cp.Slice, cp.DB}]++
 				}
-				if p2, dupOnly := copyProblems(want2, got); len(p2) == 0 || dupOnly {
+				if p2, _ := copyProblems(want2, got); len(p2) == 0 {
 					o.Known, o.KnownWhat = "C03-F3", detail
 					return
 				}
@@ -637,7 +689,7 @@ func checkCase(c c03Case) (o pbt.Outcome) {
 			o.Violation = fmt.Sprintf("statement for %s/%s is not a well-formed INSERT: %q", st.Slice, st.DB, st.SQL)
 			return
 		}
-		idx, problem := physicalIndex(f, st, ei)
+		idx, problem := physicalIndex(f, st, ei, target)
 		if problem != "" {
 			o.Violation = problem + fmt.Sprintf(": %q (original %q)", st.SQL, c.SQL)
 			return
@@ -672,7 +724,7 @@ func checkCase(c c03Case) (o pbt.Outcome) {
 			literalRows = append(literalRows, i)
 		}
 	}
-	ver := &verifier{f: f, in: in, classes: classes, out: out, sql: c.SQL, stmts: stmts}
+	ver := &verifier{f: f, in: in, classes: classes, out: out, sql: c.SQL, stmts: stmts, target: target, keyCol: keyCol, seqCol: seqColName}
 	var problem string
 	if unroutable > 0 {
 		var whys []string
@@ -759,12 +811,15 @@ type verifier struct {
 	out     []written
 	sql     string
 	stmts   []shardfix.Stmt
+	target  string // logical table written (t or tc)
+	keyCol  string // its sharding column
+	seqCol  string // its sequence column ("" = none)
 }
 
 func (v *verifier) verify(rows []int) string {
 	l := v.f.Layout
 	in := v.in
-	seqCol := l.SeqCol
+	seqCol := v.seqCol
 	seqGenerated := func(r row) bool {
 		if seqCol == "" {
 			return false
@@ -841,9 +896,9 @@ func (v *verifier) verify(rows []int) string {
 			seqSeen[sv] = true
 		}
 		if v.classes[i].seqKey {
-			idx, ok := pointRoute(v.f, w.row.vals[shardfix.Key])
+			idx, ok := pointRoute(v.f, v.target, v.keyCol, w.row.vals[v.keyCol])
 			if !ok {
-				return fmt.Sprintf("row %d got sequence key %s which no point query finds (sql %q)", i, w.row.vals[shardfix.Key], v.sql)
+				return fmt.Sprintf("row %d got sequence key %s which no point query finds (sql %q)", i, w.row.vals[v.keyCol], v.sql)
 			}
 			want = idx
 		}
